@@ -4,7 +4,7 @@ histories (the driver re-checks `wfHist`), contract clauses evaluated on observa
 import os, hashlib, shutil, copy
 from common import hx
 
-UNIVERSE = ["a", "a/b", "a/c", "a/b/d", "a/b/d/f", "e", "e.txt"]
+UNIVERSE = ["a", "a/b", "a/c", "a/b/d", "a/b/d/f", "e", "e.txt", "a/__x"]      # "__x": a name that merely LOOKS internal (only __metadata__ is reserved)
 SMALL_UNIVERSE = ["a", "a/b", "a/b/d", "e"]
 DATA = [b"", b"1", b"2", b"22\xff"]      # two values of equal length: a checksum "reused because the size did not change" shows
 USERS = ["u1", "u2"]
